@@ -784,7 +784,7 @@ func (d *Driver) Run() int {
 		"solver_unknown":                tot.unknown,
 		"solver_errors":                 tot.errs,
 		"solver_time_s":                 round2(tot.solverS),
-		"solver":                        "z3 4.8.12 (/usr/bin/z3 -in), one process per instance",
+		"solver":                        "one persistent solver process per instance: z3 4.8.12 (/usr/bin/z3 -in) unless the harness names another back end; back ends used in this run: " + strings.Join(solversUsed(d.Spec), ", "),
 		"functions_under_test":          funcsUnderTest,
 		"lal_functions_executed":        executed,
 		"bounds":                        boundsTxt,
@@ -912,4 +912,23 @@ func (d *Driver) RunOne(harness string, params map[string]int) int {
 	}
 	fmt.Println("no such harness")
 	return 3
+}
+
+func solversUsed(spec *CheckSpec) []string {
+	seen := map[string]bool{}
+	var out []string
+	for _, h := range spec.Harnesses {
+		k := h.Solver
+		if k == "" {
+			k = "z3"
+		}
+		if k == "cvc5-int" {
+			k = "cvc5 1.0 --solve-bv-as-int=sum"
+		}
+		if !seen[k] {
+			seen[k] = true
+			out = append(out, k)
+		}
+	}
+	return out
 }
